@@ -305,6 +305,15 @@ func checkImportedLog(log ledger.Log) error {
 				return fmt.Errorf("log %d: posting %d without amount", *log.ID, i)
 			}
 		}
+		for _, volumes := range []ledger.PostCommitVolumes{tx.PostCommitVolumes, tx.PostCommitEffectiveVolumes} {
+			for account, volumesByAssets := range volumes {
+				for asset, v := range volumesByAssets {
+					if v.Input == nil || v.Output == nil {
+						return fmt.Errorf("log %d: incomplete volumes for %s/%s", *log.ID, account, asset)
+					}
+				}
+			}
+		}
 		return nil
 	}
 	switch payload := log.Data.(type) {
